@@ -44,6 +44,8 @@ type Engine struct {
 	typeByID map[int]types.Type
 	strIDs  map[string]int
 	kindIDs map[string]int
+	strByID  map[int]bool
+	kindByID map[int]bool
 
 	astMu    sync.Mutex
 	astFiles map[string]*ast.File
@@ -127,7 +129,7 @@ func newEngine(repo string) *Engine {
 	return &Engine{repo: repo, modPath: "github.com/gopacket/gopacket",
 		contracts: map[string]*Contract{}, specs: map[string]*SpecFn{}, specsByName: map[string]*SpecFn{}, ifaceCts: map[string]*Contract{}, externCts: map[string]*Contract{},
 		keyInfo: map[string]keyInfo{}, mods: map[*ssa.Function]*ModSet{}, inl: map[*ssa.Function]bool{},
-		typeIDs: map[string]int{}, typeByID: map[int]types.Type{}, strIDs: map[string]int{}, kindIDs: map[string]int{},
+		typeIDs: map[string]int{}, typeByID: map[int]types.Type{}, strIDs: map[string]int{}, kindIDs: map[string]int{}, strByID: map[int]bool{}, kindByID: map[int]bool{},
 		astFiles: map[string]*ast.File{}, srcCache: map[string][]byte{},
 		derived: map[string]bool{}, inlined: map[string]bool{}, externals: map[string]bool{}, invokes: map[string]bool{}, ctUsed: map[string]bool{},
 		fnByKey: map[string]*ssa.Function{}, spkgs: map[string]*ssa.Package{}, implC: map[string][]*ssa.Function{}, pw: map[*ssa.Function]map[int]bool{}, pbU: map[*ssa.Function]map[string]bool{}, nonNilG: map[*ssa.Global]bool{}}
@@ -284,10 +286,26 @@ func (e *Engine) typeID(t types.Type) int {
 	if id, ok := e.typeIDs[s]; ok {
 		return id
 	}
-	id := len(e.typeIDs) + 1
+	// ids are a function of the name only (not of the order in which concurrently verified functions meet the
+	// type): the same source always yields the same SMT script, hence the same solver behaviour
+	id := stableID("t:"+s, func(x int) bool { _, used := e.typeByID[x]; return used })
 	e.typeIDs[s] = id
 	e.typeByID[id] = t
 	return id
+}
+
+// stableID hashes a name to an id in [2^21, 2^41); on the (practically impossible) collision it probes upwards.
+func stableID(name string, used func(int) bool) int {
+	h := sha256.Sum256([]byte(name))
+	v := 0
+	for i := 0; i < 5; i++ {
+		v = v<<8 | int(h[i])
+	}
+	v += 1 << 21
+	for used(v) {
+		v++
+	}
+	return v
 }
 
 func (e *Engine) strID(s string) int {
@@ -296,9 +314,10 @@ func (e *Engine) strID(s string) int {
 	if id, ok := e.strIDs[s]; ok {
 		return id
 	}
-	id := len(e.strIDs) + 1000
-	if s == "" {
-		id = 0
+	id := 0
+	if s != "" {
+		id = stableID("s:"+s, func(x int) bool { return e.strByID[x] })
+		e.strByID[id] = true
 	}
 	e.strIDs[s] = id
 	return id
@@ -310,7 +329,8 @@ func (e *Engine) kindID(s string) int {
 	if id, ok := e.kindIDs[s]; ok {
 		return id
 	}
-	id := len(e.kindIDs) + 1
+	id := stableID("k:"+s, func(x int) bool { return e.kindByID[x] })
+	e.kindByID[id] = true
 	e.kindIDs[s] = id
 	return id
 }
